@@ -317,7 +317,7 @@ FAMILIES = [('random', family_random), ('snapshot-chain', family_snapshot_chain)
 
 def gen_history(rng, dbdir, nops):
     opts = rng.choice(opt_sets(rng, None))
-    name, fam = rng.choice([f for f in FAMILIES if f[0] != 'repair'])
+    name, fam = rng.choice([f for f in FAMILIES if f[0] not in ('repair', 'lifecycle')])
     return name, opts, fam(rng, dbdir, opts, nops)
 
 
@@ -359,3 +359,66 @@ def family_repair(rng, dbdir, opts, nops):
 
 
 FAMILIES.append(('repair', family_repair))
+
+
+def family_lifecycle(rng, dbdir, opts, nops):
+    """open/close/failed-open/second-open sequences, lock probes from another process, backups between arbitrary
+    operations (memtable-only data, pending flushes, many levels), copy, wrong-comparator open, destroy with foreign files"""
+    import os
+    h = Hist(rng, dbdir, opts, rng.choice([5, 12]))
+    base = os.path.dirname(dbdir)
+    h.emit('journal on')
+    h.open()
+    nb = 0
+    backups = []
+    for _ in range(nops):
+        k = rng.below(22)
+        if k < 8:
+            h.write_some(rng.range(1, 4), small=rng.chance(1, 2))
+        elif k < 10:
+            h.emit(rng.choice(['flushmem', 'compact %d * *' % rng.below(3)]))
+        elif k < 12:
+            h.emit('lockprobe %s' % dbdir)
+        elif k < 14:
+            h.emit('open2 %s %s' % (dbdir, opts))       # must fail: already open in this process
+            h.emit('lockprobe %s' % dbdir)              # and must not have released the lock
+        elif k < 17:
+            name = os.path.join(base, 'bak%d' % nb)
+            nb += 1
+            h.emit('backup %s' % name)
+            backups.append(name)
+            h.emit('bcheck %s' % name)
+        elif k < 18 and backups:
+            h.emit('bcheck %s' % rng.choice(backups))   # later source writes must not change an earlier backup
+        elif k < 19:
+            h.emit('close')
+            h.emit('lockprobe %s' % dbdir)              # released
+            if rng.chance(1, 2):
+                wrong = 'cmp=rev' if 'cmp=' not in opts else opts.replace('cmp=rev', 'cmp=bw').replace('cmp=len', 'cmp=bw')
+                h.emit('expectfail')
+                h.emit('open %s %s' % (dbdir, wrong if 'cmp=' in wrong else opts + ' cmp=rev'))
+                h.emit('lockprobe %s' % dbdir)          # a failed open releases the lock
+            if rng.chance(1, 3):
+                name = os.path.join(base, 'copy%d' % nb)
+                nb += 1
+                h.emit('copy %s %s' % (dbdir, name))
+                backups.append(name)
+                h.emit('bcheck %s' % name)
+            h.snaps = {}
+            h.iters = {}
+            h.open()
+        else:
+            h.read_all(with_snaps=False, sample=4)
+    for b in backups[-3:]:
+        h.emit('bcheck %s' % b)
+    h.read_all(with_snaps=False)
+    h.emit('close')
+    if rng.chance(1, 2):
+        for nm in ['README.txt', 'notes.log.bak', 'MANIFEST', '000001.tmp', 'foo.ldb.old']:
+            if rng.chance(1, 2):
+                h.emit('foreign %s' % nm)
+        h.emit('destroy')
+    return h.lines
+
+
+FAMILIES.append(('lifecycle', family_lifecycle))
